@@ -278,6 +278,18 @@ def run(tier: str, seed: int) -> int:
                             break
                         chk.count()
                         got = project(obj)
+                        if source is not None and h["op"] == "set_geometry" and got.get("kind") == "geo":
+                            # the result of a non-inplace set_geometry is a frame of its own: changing IT in place leaves the source alone
+                            others = [c for c in got["cols"] if c != "v" and c != got.get("active")]
+                            if others and got.get("active") in got["cols"]:
+                                keep_active = got["active"]
+                                obj.set_geometry(others[0], inplace=True)
+                                again0 = project(source)
+                                obj.set_geometry(keep_active, inplace=True)
+                                if again0 != source_state:
+                                    chk.violation(f"{colsname}|set_geometry|aliased", " ; ".join(desc) + f"\n  changing the RESULT of set_geometry in place changed the frame it "
+                                                  f"was derived from: {source_state} -> {again0}", "# " + " ; ".join(desc), ctx=dict(site="set_geometry", mode="aliased", layout=colsname))
+                                    break
                         if source is not None and source is not obj:
                             again = project(source)
                             if again != source_state:
